@@ -213,21 +213,12 @@ Proof.
 Qed.
 
 (* ---- benign handler endings ---------------------------------------------------------------------- *)
-(* excluded: the handler ends with a response object other than the one it started (-> interleaved bytes, refuted
-   below), and the handler returns a response it never managed to start (-> nothing is written, refuted below) *)
+(* the only excluded ending: the handler RETURNS a fresh response object after it started another one on this request
+   (finish_response then writes a second head behind the unfinished first response: refuted below).  Every other ending,
+   including raising anything after the response was started and returning a response whose prepare() failed, is allowed. *)
 Definition benign (s : st) (e : ev) : Prop :=
   match e with
-  | EDone o =>
-      match pc s with
-      | PHandler _ started =>
-          match o with
-          | ORet _ _ | OHttp _ => started = false
-          | OStreamed => started = true
-          | OSwallow => False
-          | _ => True
-          end
-      | _ => True
-      end
+  | EDone (ORet _ _) => match pc s with PHandler _ started => started = false | _ => True end
   | _ => True
   end.
 
@@ -291,32 +282,33 @@ Lemma on_done_ids c s cur sd o :
   pc s = PHandler cur sd -> benign s (EDone o) ->
   subseq (allids (on_done c s cur sd o)) (allids s) /\ nseen (on_done c s cur sd o) = nseen s.
 Proof.
-  intros P Bn. unfold benign in Bn. rewrite P in Bn. unfold on_done.
-  destruct o as [keep status| |status| | | | ].
-  - apply finish_fresh_ids; assumption.
-  - subst sd. destruct (closed s).
-    + destruct (exit_loop_sub (push s (partial_of cur))) as [H1 H2].
-      eapply (push_then s cur true (partial_of cur)); [exact P|apply rid_partial|exact H1|exact H2].
-    + set (r := {| r_id := id_of cur; r_status := 200; r_done := true |}).
+  intros P Bn.
+  assert (EP : sd = true -> subseq (allids (exit_loop (push s (partial_of cur)))) (allids s) /\
+                            nseen (exit_loop (push s (partial_of cur))) = nseen s).
+  { intros ->. destruct (exit_loop_sub (push s (partial_of cur))) as [H1 H2].
+    eapply (push_then s cur true (partial_of cur)); [exact P|apply rid_partial|exact H1|exact H2]. }
+  assert (EC : subseq (allids (exit_loop (do_close (if sd then push s (partial_of cur) else s)))) (allids s) /\
+               nseen (exit_loop (do_close (if sd then push s (partial_of cur) else s))) = nseen s).
+  { destruct sd.
+    - destruct (exit_loop_sub (do_close (push s (partial_of cur)))) as [[Ho Hn] H2].
+      eapply (push_then s cur true (partial_of cur)); [exact P|apply rid_partial| |exact H2].
+      split; [rewrite Ho|rewrite Hn]; reflexivity.
+    - destruct (exit_loop_sub (do_close s)) as [[Ho Hn] H2].
+      eapply nopush_then; [exact P| |exact H2]. split; [rewrite Ho|rewrite Hn]; reflexivity. }
+  unfold on_done. destruct o as [keep status| |status| | | | ].
+  - cbn [benign] in Bn. rewrite P in Bn. apply finish_fresh_ids; assumption.
+  - destruct sd.
+    + destruct (closed s); [apply EP; reflexivity|].
+      set (r := {| r_id := id_of cur; r_status := 200; r_done := true |}).
       destruct (payload_check_ids c (set_ka (push s r) (negb (close_of cur))) cur) as [[Ho Hn] H2].
       eapply (push_then s cur true r); [exact P|apply rid_mk| |exact H2].
       split; [rewrite Ho|rewrite Hn]; reflexivity.
-  - apply finish_fresh_ids; assumption.
-  - destruct sd.
-    + destruct (exit_loop_sub (push s (partial_of cur))) as [H1 H2].
-      eapply (push_then s cur true (partial_of cur)); [exact P|apply rid_partial|exact H1|exact H2].
     + apply finish_fresh_ids; [exact P|reflexivity].
-  - destruct sd.
-    + destruct (exit_loop_sub (push s (partial_of cur))) as [H1 H2].
-      eapply (push_then s cur true (partial_of cur)); [exact P|apply rid_partial|exact H1|exact H2].
-    + apply finish_fresh_ids; [exact P|reflexivity].
-  - destruct sd.
-    + destruct (exit_loop_sub (do_close (push s (partial_of cur)))) as [[Ho Hn] H2].
-      eapply (push_then s cur true (partial_of cur)); [exact P|apply rid_partial| |exact H2].
-      split; [rewrite Ho|rewrite Hn]; reflexivity.
-    + destruct (exit_loop_sub (do_close s)) as [[Ho Hn] H2].
-      eapply nopush_then; [exact P| |exact H2]. split; [rewrite Ho|rewrite Hn]; reflexivity.
-  - contradiction.
+  - destruct sd; [apply EP; reflexivity|apply finish_fresh_ids; [exact P|reflexivity]].
+  - destruct sd; [apply EP; reflexivity|apply finish_fresh_ids; [exact P|reflexivity]].
+  - destruct sd; [apply EP; reflexivity|apply finish_fresh_ids; [exact P|reflexivity]].
+  - exact EC.
+  - exact EC.
 Qed.
 
 Lemma deliver_ids s tits : Same s (deliver s tits) /\
@@ -421,7 +413,6 @@ Proof. intros Ho Hp [D1 D2]. split; rewrite Ho; [exact D1|]. destruct D2; [left;
 Lemma on_done_D c s cur sd o : pc s = PHandler cur sd -> benign s (EDone o) -> DInv s -> DInv (on_done c s cur sd o).
 Proof.
   intros P Bn [D1 D2]. assert (A : all_done (out s) = true) by (destruct D2 as [D2|D2]; [congruence|exact D2]).
-  unfold benign in Bn. rewrite P in Bn.
   assert (FF : forall status k, sd = false -> DInv (finish_fresh c s cur sd status k)).
   { intros status k ->. unfold finish_fresh. destruct (closed s).
     - eapply DInv_same; [apply exit_loop_ids|exact A].
@@ -430,18 +421,20 @@ Proof.
       eapply (DInv_push_done s r); [exact A|reflexivity|]. split; [rewrite Ho|rewrite Hn]; reflexivity. }
   assert (EP : forall t, out t = out s ++ [partial_of cur] -> DInv (exit_loop t)).
   { intros t Ht. destruct (exit_loop_out t) as [E1 E2]. eapply DInv_exit_push; [exact A|rewrite E1; exact Ht|exact E2]. }
+  assert (EC : DInv (exit_loop (do_close (if sd then push s (partial_of cur) else s)))).
+  { destruct sd; [apply EP; reflexivity|].
+    eapply DInv_same; [|exact A]. destruct (exit_loop_ids (do_close s)) as ([Ho Hn] & _). split; assumption. }
   unfold on_done. destruct o as [keep status| |status| | | | ].
-  - apply FF; exact Bn.
-  - subst sd. destruct (closed s); [apply EP; reflexivity|].
+  - cbn [benign] in Bn. rewrite P in Bn. apply FF; exact Bn.
+  - destruct sd; [|apply FF; reflexivity]. destruct (closed s); [apply EP; reflexivity|].
     set (r := {| r_id := id_of cur; r_status := 200; r_done := true |}).
     destruct (payload_check_ids c (set_ka (push s r) (negb (close_of cur))) cur) as [[Ho Hn] _].
     eapply (DInv_push_done s r); [exact A|reflexivity|]. split; [rewrite Ho|rewrite Hn]; reflexivity.
-  - apply FF; exact Bn.
   - destruct sd; [apply EP; reflexivity|apply FF; reflexivity].
   - destruct sd; [apply EP; reflexivity|apply FF; reflexivity].
-  - destruct sd; [apply EP; reflexivity|].
-    eapply DInv_same; [|exact A]. destruct (exit_loop_ids (do_close s)) as ([Ho Hn] & _). split; assumption.
-  - contradiction.
+  - destruct sd; [apply EP; reflexivity|apply FF; reflexivity].
+  - exact EC.
+  - exact EC.
 Qed.
 
 Lemma deliver_pc_exit s tits : pc s = PExit -> pc (deliver s tits) = PExit.
@@ -526,7 +519,6 @@ Theorem answered_or_closed c s cur sd o s' :
   closed s' = true \/ exists status, out s' = out s ++ [{| r_id := id_of cur; r_status := status; r_done := true |}].
 Proof.
   intros P Bn H Fl. cbn [step] in H. rewrite P in H. inversion H; subst; clear H.
-  unfold benign in Bn. rewrite P in Bn.
   assert (EX : forall t, forcef t = closed t -> closed (exit_loop t) = true).
   { intros t Ht. unfold exit_loop. destruct (forcef t) eqn:F; cbn; congruence. }
   assert (FF : forall status k, sd = false ->
@@ -536,15 +528,15 @@ Proof.
     right. exists status. destruct (payload_check_ids c (set_ka (push s {| r_id := id_of cur; r_status := status; r_done := true |}) (k && negb (close_of cur))) cur) as [[Ho _] _].
     rewrite Ho. reflexivity. }
   unfold on_done. destruct o as [keep status| |status| | | | ].
-  - apply FF; exact Bn.
-  - subst sd. destruct (closed s) eqn:Cs; [left; apply EX; cbn; congruence|].
+  - cbn [benign] in Bn. rewrite P in Bn. apply FF; exact Bn.
+  - destruct sd; [|apply FF; reflexivity]. destruct (closed s) eqn:Cs; [left; apply EX; cbn; congruence|].
     right. exists 200. destruct (payload_check_ids c (set_ka (push s {| r_id := id_of cur; r_status := 200; r_done := true |}) (negb (close_of cur))) cur) as [[Ho _] _].
     rewrite Ho. reflexivity.
-  - apply FF; exact Bn.
+  - destruct sd; [left; apply EX; cbn; congruence|apply FF; reflexivity].
   - destruct sd; [left; apply EX; cbn; congruence|apply FF; reflexivity].
   - destruct sd; [left; apply EX; cbn; congruence|apply FF; reflexivity].
   - left. apply EX. destruct sd; reflexivity.
-  - contradiction.
+  - left. apply EX. destruct sd; reflexivity.
 Qed.
 
 Theorem answered_or_closed_reach c s cur sd o s' :
@@ -557,23 +549,13 @@ Qed.
 (* executable form of `benign`, to exhibit benign runs by computation *)
 Definition benignb (s : st) (e : ev) : bool :=
   match e with
-  | EDone o =>
-      match pc s with
-      | PHandler _ started =>
-          match o with
-          | ORet _ _ | OHttp _ => negb started
-          | OStreamed => started
-          | OSwallow => false
-          | _ => true
-          end
-      | _ => true
-      end
+  | EDone (ORet _ _) => match pc s with PHandler _ started => negb started | _ => true end
   | _ => true
   end.
 
 Lemma benignb_ok s e : benignb s e = true -> benign s e.
 Proof.
-  unfold benignb, benign. destruct e; auto. destruct (pc s); auto. destruct o; auto; destruct started; cbn; auto; discriminate.
+  unfold benignb, benign. destruct e; auto. destruct o; auto. destruct (pc s); auto. destruct started; cbn; auto; discriminate.
 Qed.
 
 Fixpoint runb (c : cfg) (s : st) (es : list ev) : option st :=
